@@ -22,6 +22,7 @@
   when a failed `Write` left more than one block in the buffer.
 -/
 import Saltpack.Proofs.SenderStreamInst
+import Saltpack.Proofs.SenderStreamArmor
 
 namespace Saltpack.Props.C14
 open Saltpack Saltpack.Sender Saltpack.Proofs.SenderP
@@ -291,6 +292,74 @@ theorem C14_detached_written_or_prefix (P : Prims) (pieces : Bytes → List Byte
   · simpa [Wr.bytes, List.append_assoc] using h1
   · intro hi hc
     simpa [Wr.bytes, List.append_assoc] using h2 hi hc
+
+/-! ## the armored compositions (armor62_encrypt.go `closeForwarder`, armor62_sign.go,
+     armor62_signcrypt.go; armor.go `armorEncoderStream.Write` / `spaceAndOutputBuffer` / `Close`):
+     packet stream → go-codec → `FArm` (the armor encoder stream over the scripted writer).
+     Checked call by call against `NewEncryptArmor62Stream`, `NewSignArmor62Stream`,
+     `NewSignDetachedArmor62Stream`, `NewSigncryptArmor62SealStream` (streams `sender.fault.*.a`). -/
+
+/-- the armor encoder stream is itself a reporting writer: its `Write` (and its
+    `Close`) returns an error iff an underlying write failed during the call —
+    exactly one, the first; no error of `spaceAndOutputBuffer` is dropped -/
+theorem C14_armor_writer_reports (a : FArm) (b : Bytes) :
+    (a.write b).2.w.faults = a.w.faults + (if (a.write b).1 then 0 else 1) ∧
+    a.close.2.w.faults = a.w.faults + (if a.close.1 then 0 else 1) := by
+  refine ⟨?_, farm_close_faults a⟩
+  cases h : a.write b with
+  | mk ok a' =>
+    cases ok with
+    | true => simpa using farm_flt.ok a b a' h
+    | false => simpa using farm_flt.fail a b a' h
+
+/-- hence every armored packet stream reports: a `Write` (a `Close` through
+    `closeForwarder`) that returns no error has seen no failing underlying write -/
+theorem C14_armored_calls_report (cfg : Cfg) (st : PSt FArm) (p : Bytes) :
+    ((st.write FArm.write cfg p).2.1 = none → (st.write FArm.write cfg p).2.2.codec.w.w.faults = st.codec.w.w.faults) ∧
+    ((armoredClose cfg st).1 = none → (armoredClose cfg st).2.codec.w.w.faults = st.codec.w.w.faults) :=
+  ⟨(write_flt FArm.write (fun a => a.w.faults) farm_flt cfg st p).1, (armoredClose_spec cfg st).1⟩
+
+/-- **sticky through the armor**: a failing underlying write leaves go-codec's
+    encoder failed; from then on no `Write` and no `Close` touches the armor
+    stream or the writer below it, and `Close` reports an error (or panics) -/
+theorem C14_armored_after_fault (cfg : Cfg) (st : PSt FArm) (p : Bytes) :
+    ((st.write FArm.write cfg p).2.2.codec.w.w.faults ≠ st.codec.w.w.faults →
+      (st.write FArm.write cfg p).2.2.codec.failed = true) ∧
+    (st.codec.failed = true →
+      (st.write FArm.write cfg p).2.2.codec = st.codec ∧
+      (armoredClose cfg st).1 ≠ none ∧ (armoredClose cfg st).2.codec = st.codec) :=
+  ⟨(write_flt FArm.write (fun a => a.w.faults) farm_flt cfg st p).2.1,
+   fun hf => ⟨failed_write FArm.write cfg st p hf, (armoredClose_spec cfg st).2 hf⟩⟩
+
+/-- **whole armored run: `Close` never reports success for a message that was
+    not completely written** — if ANY underlying write failed (armor header,
+    packet-stream constructor, any `Write`, `Close` of either layer), then a
+    constructor failed or `Close` returns an error -/
+theorem C14_armored_run_fault_reported (cfg : Cfg) (typ : Int) (brand : Bytes) (sink : Stream.Sink)
+    (headerBytes : Bytes) (ws : List Bytes) :
+    let a := FArm.init62 typ brand ({ sink := sink } : Wr)
+    let i := PSt.init FArm.write cfg.pieces a.2 headerBytes
+    let c := armoredClose cfg (PSt.writes FArm.write cfg i.2 ws).2
+    c.2.codec.w.w.faults ≠ 0 → a.1 = false ∨ c.1 ≠ none := by
+  intro a i c hne
+  by_cases hc : c.1 = none
+  · left
+    have hsame := (armoredClose_spec cfg (PSt.writes FArm.write cfg i.2 ws).2).1 hc
+    have hi := faultSeen_init FArm.write (fun a => a.w.faults) farm_flt cfg.pieces a.2 headerBytes
+    have hw := faultSeen_writes FArm.write (fun a => a.w.faults) farm_flt cfg (a.2.w.faults) ws _ hi.1
+    have ha0 : a.2.w.faults = (if a.1 then 0 else 1) := by
+      have := wr_write_faults ({ sink := sink } : Wr) (Armor.header typ brand ++ [Armor.period, Armor.space])
+      simpa [a, FArm.init62, FArm.init] using this
+    cases hA : a.1 with
+    | false => rfl
+    | true =>
+      rw [hA] at ha0
+      simp only [if_true] at ha0
+      have hfailed := hw (by
+        show (PSt.writes FArm.write cfg i.2 ws).2.codec.w.w.faults ≠ a.2.w.faults
+        rw [ha0, ← hsame]; exact hne)
+      exact absurd hc ((armoredClose_spec cfg _).2 hfailed).1
+  · exact Or.inr hc
 
 /-! ## bounded buffering -/
 
